@@ -19,10 +19,13 @@ EXPLANATION = (
     "simulated time carries over every other field; S6 status counters agree by name with Status members and derive from "
     "one map written only by update/mark_running_job_as_stopped; S7 StopIteration is raised exactly on 'no suggestion' and "
     "caught only around _schedule_new_tasks; S8 every trial started in a scheduling step is registered in the running set and "
-    "the status before the step can fail or end (so exhaustion in mid-batch leaves nothing untracked). NOT decided: run-time overshoot <= n_workers (follows from C01-S8 under its "
+    "the status before the step can fail or end (so exhaustion in mid-batch leaves nothing untracked); S9 the criteria are "
+    "consulted independently: with every threshold configured, none crossed and at least one result reported, the test of each "
+    "threshold field is still reachable in __call__ (abstract path feasibility over {configured, not crossed}) - no criterion "
+    "is chained behind another one. NOT decided: run-time overshoot <= n_workers (follows from C01-S8 under its "
     "assumptions), exceptions raised inside the finally suite itself.")
 
-FLOOR = {"S1": 3, "S2": 5, "S3": 2, "S4": 8, "S5": 7, "S6": 6, "S7": 2, "S8": 2}
+FLOOR = {"S1": 3, "S2": 5, "S3": 2, "S4": 8, "S5": 7, "S6": 6, "S7": 2, "S8": 2, "S9": 8}
 
 
 def s1(ctx, rep):
@@ -402,6 +405,67 @@ def s7(ctx, rep, clause="S7"):
     rep.put(ok, clause, "agreement", "Tuner.run: StopIteration caught only around _schedule_new_tasks", r, hs[0] if hs else None, "")
 
 
+def s9(ctx, rep):
+    """every configured criterion is consulted: with all thresholds configured, none of them crossed and at least one
+    result reported, the test of each threshold is still reached (no criterion is hidden behind another one)."""
+    P = ctx.P
+    c = P.cls("StoppingCriterion")
+    f = c.methods["__call__"]
+    cfg = cfg_of(f)
+    fields = [a for a in c.class_annots if not a.startswith("_")]
+    if len(fields) < 6:
+        raise AnchorError(f"StoppingCriterion: only {len(fields)} threshold fields found")
+    # loop variables bound over a threshold dict stand for thresholds too
+    thr_names = set()
+    for x in walk_shallow(f.node):
+        if isinstance(x, ast.For) and any(isinstance(y, ast.Attribute) and U(y) in {"self." + a for a in fields} for y in ast.walk(x.iter)):
+            thr_names |= {y.id for y in ast.walk(x.target) if isinstance(y, ast.Name)}
+
+    def mentions_threshold(e):
+        return any((isinstance(y, ast.Attribute) and U(y) in {"self." + a for a in fields}) or (isinstance(y, ast.Name) and y.id in thr_names)
+                   for y in ast.walk(e))
+
+    def ev(e):
+        if isinstance(e, ast.UnaryOp) and isinstance(e.op, ast.Not):
+            v = ev(e.operand)
+            return None if v is None else not v
+        if isinstance(e, ast.BoolOp):
+            vs = [ev(v) for v in e.values]
+            if isinstance(e.op, ast.And):
+                return False if any(v is False for v in vs) else (True if all(v is True for v in vs) else None)
+            return True if any(v is True for v in vs) else (False if all(v is False for v in vs) else None)
+        if isinstance(e, ast.Compare) and len(e.ops) == 1:
+            a, b, op = e.left, e.comparators[0], e.ops[0]
+            if isinstance(op, (ast.Is, ast.IsNot)) and "None" in (U(a), U(b)):
+                other = b if U(a) == "None" else a
+                if isinstance(other, ast.Attribute) and U(other) in {"self." + x for x in fields}:
+                    return isinstance(op, ast.IsNot)          # every criterion is configured
+            if isinstance(op, (ast.Gt, ast.GtE, ast.Lt, ast.LtE)):
+                if mentions_threshold(e):
+                    return False                              # no threshold is crossed
+                if (U(b) == "0" and isinstance(op, ast.Gt) and "count" in U(a)) or (U(a) == "0" and isinstance(op, ast.Lt) and "count" in U(b)):
+                    return True                               # at least one result has been reported
+        return None
+
+    def edge_ok(label):
+        if isinstance(label, tuple) and label[0] == "cond":
+            v = ev(label[1])
+            return v is None or v == label[2]
+        return label != "exc"
+    reach = cfg.reachable(cfg.entry, edge_ok=edge_ok)
+    for a in fields:
+        tests = [n.id for n in cfg.nodes if n.kind == "test" and any(isinstance(y, ast.Attribute) and U(y) == "self." + a for y in ast.walk(n.ast))
+                 and any(isinstance(y, ast.Compare) and isinstance(y.ops[0], (ast.Is, ast.IsNot)) and "self." + a in (U(y.left), U(y.comparators[0]))
+                         for y in ast.walk(n.ast))]
+        if not tests:
+            rep.bad("S9", "exhaustive", f"StoppingCriterion.__call__ tests `{a}`", f, None, f"the criterion `{a}` can be configured but is never consulted")
+            continue
+        ok = any(t in reach for t in tests)
+        rep.put(ok, "S9", "independent", f"StoppingCriterion.__call__: `{a}` is consulted whatever the other criteria are", f, cfg.nodes[tests[0]].ast, "",
+                f"with every other criterion configured (and not yet met) the test of `{a}` is not reached: it is chained behind another "
+                "criterion (elif / early exit), so tuning continues although this criterion holds")
+
+
 def run(ctx, rep, tier="quick"):
     s1(ctx, rep)
     s2(ctx, rep)
@@ -410,5 +474,6 @@ def run(ctx, rep, tier="quick"):
     s5(ctx, rep)
     s6(ctx, rep)
     s7(ctx, rep)
+    s9(ctx, rep)
     from . import c01
     c01.s10(ctx, rep, clause="S8")
